@@ -64,7 +64,7 @@ static const struct { const char *pfx; enum kind k; } KTAB[] = {
     { "rpre", K_RPRE }, { "rrel", K_RREL }, { "pacq", K_PACQ }, { "ppre", K_PPRE }, { "prel", K_PREL },
     { "bput", K_BPUT }, { "bget", K_BGET }, { "oqput", K_OQPUT }, { "oqget", K_OQGET },
     { "pqput", K_PQPUT }, { "pqget", K_PQGET }, { "pqcancel", K_PQCANCEL }, { "pqreprio", K_PQREPRIO },
-    { "cwait", K_CWAIT }, { "csig", K_CSIG }, { "setx", K_SETX }, { "ccancel", K_CCANCEL },
+    { "cwait", K_CWAIT }, { "cwaitb", K_CWAITB }, { "csig", K_CSIG }, { "setx", K_SETX }, { "ccancel", K_CCANCEL },
     { "cremove", K_CREMOVE }, { "csubb", K_CSUBB }, { "cunsubb", K_CUNSUBB }, { "csub", K_CSUB }, { "cunsub", K_CUNSUB }, { "evsched", K_EVSCHED }, { "evcancel", K_EVCANCEL },
     { "recon", K_RECON }, { "recoff", K_RECOFF }, { "start", K_START }, { "nop", K_NOP },
     { NULL, K_NOP }
@@ -362,6 +362,8 @@ static bool pred(const struct cmb_condition *c, const struct cmb_process *pp, co
     case 2: return D.X == 0;
     case 3: return D.nres > 0 && cmb_resource_available(&D.res[0]) == 1;
     case 4: return D.has_pool && cmb_resourcepool_available(&D.pool) >= 2;
+    case 5: return D.has_buf && cmb_buffer_level(&D.buf) <= 1;   /* "time to reorder" */
+    case 6: return D.has_buf && cmb_buffer_level(&D.buf) >= 2;
     default: return false;
     }
 }
@@ -419,7 +421,7 @@ static bool enabled(int p, const struct opdef *od)
         return D.has_pq && D.pq_handle[p] != 0;
     case K_PQREPRIO:
         return D.has_pq && D.pq_handle[p] != 0 && cmb_priorityqueue_position(&D.pq, D.pq_handle[p]) != 0;
-    case K_CWAIT: case K_CSIG: case K_SETX:
+    case K_CWAIT: case K_CSIG: case K_SETX: case K_CWAITB:
         return D.has_cond || od->kind == K_SETX;
     case K_CCANCEL: case K_CREMOVE: case K_CREMOVEB: case K_CCANCELB:
         return D.has_cond && q != p && q < D.P && D.inited[q];
@@ -861,6 +863,9 @@ static int64_t do_op(int p, const struct opdef *od)
     case K_CWAIT:
         ret = cmb_condition_wait(&D.cond, pred, (void *)(intptr_t)od->a);
         break;
+    case K_CWAITB:
+        ret = cmb_condition_wait(&D.cond_b, pred, (void *)(intptr_t)od->a);
+        break;
     case K_CSIG:
         ret = cmb_condition_signal(&D.cond);
         break;
@@ -894,6 +899,7 @@ static int64_t do_op(int p, const struct opdef *od)
     case K_CSUB:
         cmb_condition_subscribe(&D.cond, &D.res[0].guard);
         D.sub_res = 2;
+        D.sub_static = false;
         break;
     case K_CSUBB:
         cmb_condition_subscribe(&D.cond_b, &D.res[0].guard);
@@ -999,7 +1005,7 @@ static int64_t do_op(int p, const struct opdef *od)
     if (od->kind == K_HOLD || od->kind == K_YIELD || od->kind == K_WAITP || od->kind == K_WAITE
         || od->kind == K_RACQ || od->kind == K_RPRE || od->kind == K_PACQ || od->kind == K_PPRE
         || od->kind == K_BPUT || od->kind == K_BGET || od->kind == K_OQPUT || od->kind == K_OQGET
-        || od->kind == K_PQPUT || od->kind == K_PQGET || od->kind == K_CWAIT) {
+        || od->kind == K_PQPUT || od->kind == K_PQGET || od->kind == K_CWAIT || od->kind == K_CWAITB) {
         /* timers that fired or were wiped by an interrupt are no longer cancellable by handle:
          * keep only those still scheduled */
         int w = 0;
@@ -1293,6 +1299,16 @@ static void run_one(void)
             cmb_condition_subscribe(&D.cond, &D.res[0].guard);
             D.sub_res = 2;
         }
+        if (strstr(sub, "chain")) {
+            /* a relay: the second condition observes the first one's guard (which observes resource 0 or the pool) */
+            cmb_condition_subscribe(&D.cond_b, &D.cond.guard);
+        }
+        if (strstr(sub, "buf") && D.has_buf) {
+            /* the condition hears of every put (front guard) and every get (rear guard) of the buffer */
+            cmb_condition_subscribe(&D.cond, &D.buf.front_guard);
+            cmb_condition_subscribe(&D.cond, &D.buf.rear_guard);
+        }
+        D.sub_static = sub[0] != 0;
     }
     if (!reused && vx_opt_int("reuse", 1)) {
         /* first life */
